@@ -265,7 +265,9 @@ def string_to_bytes_family():
     import math
     S = load(SU)
     mags = ['0', '1', '7', '10', '1.5', '.5', '0.125', '123456789', '3.0',
-            '1024', '0.0009765625', '999', '2.25', '65536']
+            '1024', '0.0009765625', '999', '2.25', '65536',
+            '0.000000059604644775390625', '3.000000059604644775390625',
+            '0.999999940395355224609375']
     bad_mags = ['', '1.', '1e3', 'x', '1,5', '--1', ' 1', '1 ']
     foreign = ['X', 'ki', 'Ki', 'K', 'k', 'mi', 'KI', 'iK', 'Kii']
     all_prefixes = sorted(set(ADMITTED['IEC'] + ADMITTED['SI']
@@ -306,8 +308,10 @@ def string_to_bytes_family():
                                     prefix)
                             if ri:
                                 want = math.ceil(q)
-                                exact = (q.denominator & (q.denominator - 1)
-                                         == 0 and abs(q) < 2 ** 52)
+                                # exact oracle only where the true quantity
+                                # (and hence every intermediate) is a double
+                                exact = (abs(q) < 2 ** 52 and
+                                         fractions.Fraction(float(q)) == q)
                                 check('family/ceiling',
                                       r == want if exact
                                       else abs(r - want) <= max(
